@@ -233,7 +233,33 @@ def render(case):
     add("\tlisting on")
     for i in range(0, len(labels), 6):
         add("\tshared %s" % ",".join(labels[i:i + 6]))
+    # non-integer constants in the share file: a float and a string (SHARED_CONSTS holds what the file must say)
+    for name, text, _ in SHARED_CONSTS:
+        add("%s\tequ %s" % (name, text))
+    add("\tshared %s" % ",".join(n for n, _, _ in SHARED_CONSTS))
     return "\n".join(L) + "\n", "\n".join(inc) + "\n", labels, feats, must, cpu_of_line
+
+
+SHARED_CONSTS = [("shflt", "2.5", 2.5), ("shneg", "-0.00125", -0.00125), ("shbig", "1.0e100", 1e100), ("shstr", '"aZ q"', "aZ q")]
+
+
+def check_shared_consts(share_text):
+    """the float and string constants of a generated program as the share file states them (any of the 3 formats)"""
+    for name, _, want in SHARED_CONSTS:
+        m = re.search(r"^(?:#define\s+)?%s\s*(?:=|equ)?\s*(.+?);?\s*$" % name, share_text, re.M | re.I)
+        if not m:
+            return "share file has no entry for %s" % name
+        tok = m.group(1).strip()
+        if isinstance(want, float):
+            try:
+                got = float(tok)
+            except ValueError:
+                return "share file entry of %s is %r, no floating point number" % (name, tok)
+            if got != want:
+                return "share file says %s = %r, the symbol is %r" % (name, got, want)
+        elif tok[1:-1] != want or tok[0] not in "\"'" or tok[-1] != tok[0]:
+            return "share file says %s = %s, the symbol is the string %r" % (name, tok, want)
+    return None
 
 
 # ------------------------------------------------------------------ the oracle
@@ -434,6 +460,8 @@ def execute(case):
     why, st = verify(lst.decode("latin-1"), mp.decode("latin-1") if mp else None,
                      sh.decode("latin-1") if sh else None, trace.decode("latin-1"), p, radix, complete, labels,
                      cpu_of_line)
+    if not why and case["kind"] == "gen":
+        why = check_shared_consts(sh.decode("latin-1")) if sh else "no share file written"
     nt = bool(feats) or radix != 16 or st["multi"] > 0
     key = "|".join([ident, ",".join(sorted(feats)), str(radix), share]) if nt else None
     classes += ["entries>0"] if st["entries"] else ["no-entries"]
